@@ -1018,7 +1018,7 @@ fn channels() -> Vec<Channel> {
             run: run_full,
             oracle: Some(oracle_full),
             modelled: true,
-            rust_fn: "DefaultSolver::new + IPSolver::solve (whole trajectory, observer) + DefaultSolution",
+            rust_fn: "DefaultSolver::new + IPSolver::solve (whole trajectory, observer) + DefaultSolution; every KKT solve inside runs DirectLDLKKTSolver::{setrhs, solve, iterative_refinement, getlhs} and _get_refine_error (modelled: Solver.refineError / Solver.irLoop / KktSolver.iterativeRefinement in Solver/KktSolver.lean)",
             lean: "Solver.Solver.solve, Solver.pass, Solver.runLoop / C04.full_refines_loop, C04.full_terminates, C04.full_solve_terminal, C04.full_no_stale_prev, C03.full_iterations_eq_kkt_updates, C03.full_solution_lengths, C07.full_prefix, C07.full_pass_budget_independent",
         },
         Channel {
